@@ -60,6 +60,10 @@ HOSTILE_SIGS = [
     'a()', 'a(())', 'aa()', 'a{}', 'a{()()}', '(a())', 'va()',
     '(' * 200, '(' * 120 + ')' * 120, 'a' * 254 + 'y', 'a' * 255, 'a' * 100 + '(' * 100,
     '(i', 'a', 'a(', 'z', 'i)', '{ss}', 'a{sv', 'a{vs}', '()', 'a' * 60 + '()', 'ai' * 120, 'v' * 200,
+    # well-formed array types whose length field lies (every element decoder must fail at the
+    # end of the data rather than invent values)
+    'ah', 'a(h)', 'aah', 'a(hh)', 'ay', 'au', 'as', 'av', 'ad', 'a{sv}', 'a(ii)', 'ab', 'ag', 'ao',
+    'a(yh)', 'aa{sh}',
 ]
 
 
@@ -173,8 +177,8 @@ def mutate(ds, sim, little_serial):
             sim.probe('unterminated-container')
         little = not ds.flag(0.3)
         e = '<' if little else '>'
-        alen = ds.pick([8, 0, 1, 4, 64, 2**31, 2**32 - 1, 16])
-        if alen >= 2**31:
+        alen = ds.pick([8, 0, 1, 4, 64, 2**31, 2**32 - 1, 16, 0x0ffffff8, 2**27, 2**24])
+        if alen >= 2**24:
             sim.probe('lying-array-length')
         pad = ds.pick([0, 4, 8, 64, 300])
         if sig.startswith('v'):
